@@ -13,37 +13,35 @@
 
 use std::collections::HashMap;
 use std::fmt::Write as _;
-use wac_types::{
-    CoreExtern, CoreFuncType, CoreRefType, CoreType, DefinedType, ItemKind, Package, Type, Types,
-    ValueType,
-};
+use wac_types::{Package, Types};
 use wasmparser::component_types as wt;
 use wasmparser::{types::Types as WTypes, Validator, WasmFeatures};
 
 // ---------------------------------------------------------------------------------------------
 // atoms
 
+/// `$`-prefixed string atom of the shared text form (see lean/WacModel/Tree.lean)
 pub fn atom(s: &str) -> String {
-    if s.is_empty() {
-        return "$$".to_string();
-    }
-    let mut out = String::with_capacity(s.len());
+    let mut out = String::with_capacity(s.len() + 1);
+    out.push('$');
     for c in s.chars() {
-        if c.is_ascii_alphanumeric() || ":/@._-[]=<>{}+*%#".contains(c) {
+        let ok = c.is_ascii_alphanumeric() || "-_.:/@[]#+=<>!*~^&|?;".contains(c);
+        if ok {
             out.push(c);
         } else {
-            write!(out, "${:x}$", c as u32).unwrap();
+            write!(out, "%{:x};", c as u32).unwrap();
         }
     }
     out
 }
 
 fn opt(s: Option<String>) -> String {
-    s.unwrap_or_else(|| "-".to_string())
+    s.unwrap_or_else(|| "_".to_string())
 }
 
 // ---------------------------------------------------------------------------------------------
-// core externs, canonical text from both sides (independent code paths)
+// core externs of the validator's module types, in the shared text form (`extern` grammar of
+// lean/WacModel/Tree.lean) -- written from wasmparser's types, independently of wac's CoreExtern
 
 fn w_heap(h: wasmparser::HeapType) -> String {
     match h {
@@ -70,9 +68,13 @@ fn w_heap(h: wasmparser::HeapType) -> String {
                 n.to_string()
             }
         }
-        wasmparser::HeapType::Concrete(i) => format!("concrete{}", i.as_module_index().map(|x| x as i64).unwrap_or(-1)),
-        wasmparser::HeapType::Exact(i) => format!("exact{}", i.as_module_index().map(|x| x as i64).unwrap_or(-1)),
+        wasmparser::HeapType::Concrete(i) => format!("(concrete,{})", i.as_module_index().unwrap_or(u32::MAX)),
+        wasmparser::HeapType::Exact(i) => format!("(exact,{})", i.as_module_index().unwrap_or(u32::MAX)),
     }
+}
+
+fn w_ref(r: wasmparser::RefType) -> String {
+    format!("(ref,{},{})", r.is_nullable() as u8, w_heap(r.heap_type()))
 }
 
 fn w_valtype(v: wasmparser::ValType) -> String {
@@ -82,118 +84,61 @@ fn w_valtype(v: wasmparser::ValType) -> String {
         wasmparser::ValType::F32 => "f32".into(),
         wasmparser::ValType::F64 => "f64".into(),
         wasmparser::ValType::V128 => "v128".into(),
-        wasmparser::ValType::Ref(r) => format!("(ref {} {})", r.is_nullable() as u8, w_heap(r.heap_type())),
+        wasmparser::ValType::Ref(r) => w_ref(r),
     }
 }
 
 fn w_core_func(t: &WTypes, id: wasmparser::types::CoreTypeId) -> String {
     let f = t[id].unwrap_func();
     format!(
-        "(({}) ({}))",
-        f.params().iter().map(|v| w_valtype(*v)).collect::<Vec<_>>().join(" "),
-        f.results().iter().map(|v| w_valtype(*v)).collect::<Vec<_>>().join(" ")
+        "(({}),({}))",
+        f.params().iter().map(|v| w_valtype(*v)).collect::<Vec<_>>().join(","),
+        f.results().iter().map(|v| w_valtype(*v)).collect::<Vec<_>>().join(",")
     )
 }
 
 fn w_extern(t: &WTypes, e: wasmparser::types::EntityType) -> String {
     use wasmparser::types::EntityType as E;
     match e {
-        E::Func(id) => format!("(func {})", w_core_func(t, id)),
-        E::FuncExact(id) => format!("(funcexact {})", w_core_func(t, id)),
+        E::Func(id) => format!("(func,{})", w_core_func(t, id)),
+        E::FuncExact(id) => format!("(funcexact,{})", w_core_func(t, id)),
         E::Table(ty) => format!(
-            "(table (ref {} {}) {} {} {} {})",
-            ty.element_type.is_nullable() as u8,
-            w_heap(ty.element_type.heap_type()),
+            "(table,{},{},{},{},{})",
+            w_ref(ty.element_type),
             ty.initial,
             opt(ty.maximum.map(|m| m.to_string())),
             ty.table64 as u8,
             ty.shared as u8
         ),
         E::Memory(ty) => format!(
-            "(memory {} {} {} {} {})",
+            "(memory,{},{},{},{},{})",
             ty.memory64 as u8,
             ty.shared as u8,
             ty.initial,
             opt(ty.maximum.map(|m| m.to_string())),
             opt(ty.page_size_log2.map(|m| m.to_string()))
         ),
-        E::Global(ty) => format!("(global {} {} {})", w_valtype(ty.content_type), ty.mutable as u8, ty.shared as u8),
-        E::Tag(id) => format!("(tag {})", w_core_func(t, id)),
-    }
-}
-
-fn a_heap(h: wac_types::HeapType) -> String {
-    use wac_types::HeapType as H;
-    match h {
-        H::Concrete(i) => format!("concrete{i}"),
-        H::Func => "func".into(),
-        H::Extern => "extern".into(),
-        H::Any => "any".into(),
-        H::None => "none".into(),
-        H::NoExtern => "noextern".into(),
-        H::NoFunc => "nofunc".into(),
-        H::Eq => "eq".into(),
-        H::Struct => "struct".into(),
-        H::Array => "array".into(),
-        H::I31 => "i31".into(),
-        H::Exn => "exn".into(),
-        H::NoExn => "noexn".into(),
-        H::Cont => "cont".into(),
-        H::NoCont => "nocont".into(),
-    }
-}
-
-fn a_ref(r: CoreRefType) -> String {
-    format!("(ref {} {})", r.nullable as u8, a_heap(r.heap_type))
-}
-
-fn a_valtype(v: CoreType) -> String {
-    match v {
-        CoreType::I32 => "i32".into(),
-        CoreType::I64 => "i64".into(),
-        CoreType::F32 => "f32".into(),
-        CoreType::F64 => "f64".into(),
-        CoreType::V128 => "v128".into(),
-        CoreType::Ref(r) => a_ref(r),
-    }
-}
-
-fn a_core_func(f: &CoreFuncType) -> String {
-    format!(
-        "(({}) ({}))",
-        f.params.iter().map(|v| a_valtype(*v)).collect::<Vec<_>>().join(" "),
-        f.results.iter().map(|v| a_valtype(*v)).collect::<Vec<_>>().join(" ")
-    )
-}
-
-fn a_extern(e: &CoreExtern) -> String {
-    match e {
-        CoreExtern::Func(f) => format!("(func {})", a_core_func(f)),
-        CoreExtern::Table { element_type, initial, maximum, table64, shared } => format!(
-            "(table {} {} {} {} {})",
-            a_ref(*element_type),
-            initial,
-            opt(maximum.map(|m| m.to_string())),
-            *table64 as u8,
-            *shared as u8
-        ),
-        CoreExtern::Memory { memory64, shared, initial, maximum, page_size_log2 } => format!(
-            "(memory {} {} {} {} {})",
-            *memory64 as u8,
-            *shared as u8,
-            initial,
-            opt(maximum.map(|m| m.to_string())),
-            opt(page_size_log2.map(|m| m.to_string()))
-        ),
-        CoreExtern::Global { val_type, mutable, shared } => {
-            format!("(global {} {} {})", a_valtype(*val_type), *mutable as u8, *shared as u8)
-        }
-        CoreExtern::Tag(f) => format!("(tag {})", a_core_func(f)),
+        E::Global(ty) => format!("(global,{},{},{})", w_valtype(ty.content_type), ty.mutable as u8, ty.shared as u8),
+        E::Tag(id) => format!("(tag,{})", w_core_func(t, id)),
     }
 }
 
 // ---------------------------------------------------------------------------------------------
-// W: the validator's view
+// W: the validator's view.  Grammar (documented again in lean/WacModel/Decode.lean); every table
+// is in interned (first-visit) order, an entry's number is its position:
+//
+//   w     ::= (W root (D wdef*) (F wfunc*) (I winst*) (C wcomp*) (M module*) (R wres*))
+//   wval  ::= prim | (d n)                         owval ::= _ | wval
+//   wdef  ::= (opeel body)                         opeel ::= _ | n
+//   body  ::= (prim p) | (record ($name wval)*) | (variant ($name owval)*) | (list wval)
+//           | (tuple wval*) | (flags $name*) | (enum $name*) | (option wval) | (result owval owval)
+//           | (own r) | (borrow r) | (stream owval) | (future owval) | (flist wval n) | (map wval wval)
+//   wfunc ::= (async (($name wval)*) owval)
+//   went  ::= (module n) | (func n) | (value wval) | (type wany wany) | (instance n) | (component n)
+//   wany  ::= (r n) | (d n) | (f n) | (i n) | (c n)          -- (type referenced created)
+//   winst ::= ((($name went)*))
+//   wcomp ::= ((($name went)*) (($name went)*))              -- imports, exports
+//   wres  ::= (base opeel)
 
 pub fn prim_name(p: wasmparser::PrimitiveValType) -> &'static str {
     use wasmparser::PrimitiveValType as P;
@@ -271,20 +216,20 @@ impl<'a> Walk<'a> {
         if peel.is_some() {
             self.hit("w:resource-alias-edge");
         }
-        self.rdefs[n] = format!("({} {} {})", n, base, opt(peel));
+        self.rdefs[n] = format!("({},{})", base, opt(peel));
         n
     }
 
     fn val(&mut self, v: wt::ComponentValType) -> String {
         match v {
             wt::ComponentValType::Primitive(p) => prim_name(p).to_string(),
-            wt::ComponentValType::Type(id) => format!("(d {})", self.defined(id)),
+            wt::ComponentValType::Type(id) => format!("(d,{})", self.defined(id)),
         }
     }
 
     fn oval(&mut self, v: Option<wt::ComponentValType>) -> String {
         match v {
-            None => "-".into(),
+            None => "_".into(),
             Some(v) => self.val(v),
         }
     }
@@ -305,69 +250,69 @@ impl<'a> Walk<'a> {
         let body = match &t[id] {
             D::Primitive(p) => {
                 self.hit("w:def-prim");
-                format!("(prim {})", prim_name(*p))
+                format!("(prim,{})", prim_name(*p))
             }
             D::Record(r) => {
                 self.hit("w:def-record");
-                let fs: Vec<String> = r.fields.iter().map(|(n, v)| format!("({} {})", atom(n.as_str()), self.val(*v))).collect();
-                format!("(record {})", fs.join(" "))
+                let fs: Vec<String> = r.fields.iter().map(|(n, v)| format!(",({},{})", atom(n.as_str()), self.val(*v))).collect();
+                format!("(record{})", fs.concat())
             }
             D::Variant(r) => {
                 self.hit("w:def-variant");
-                let cs: Vec<String> = r.cases.iter().map(|(n, c)| format!("({} {})", atom(n.as_str()), self.oval(c.ty))).collect();
-                format!("(variant {})", cs.join(" "))
+                let cs: Vec<String> = r.cases.iter().map(|(n, c)| format!(",({},{})", atom(n.as_str()), self.oval(c.ty))).collect();
+                format!("(variant{})", cs.concat())
             }
             D::List(v) => {
                 self.hit("w:def-list");
-                format!("(list {})", self.val(*v))
+                format!("(list,{})", self.val(*v))
             }
             D::Tuple(tt) => {
                 self.hit("w:def-tuple");
-                let vs: Vec<String> = tt.types.iter().map(|v| self.val(*v)).collect();
-                format!("(tuple {})", vs.join(" "))
+                let vs: Vec<String> = tt.types.iter().map(|v| format!(",{}", self.val(*v))).collect();
+                format!("(tuple{})", vs.concat())
             }
             D::Flags(fs) => {
                 self.hit("w:def-flags");
-                format!("(flags {})", fs.iter().map(|f| atom(f.as_str())).collect::<Vec<_>>().join(" "))
+                format!("(flags{})", fs.iter().map(|f| format!(",{}", atom(f.as_str()))).collect::<Vec<_>>().concat())
             }
             D::Enum(fs) => {
                 self.hit("w:def-enum");
-                format!("(enum {})", fs.iter().map(|f| atom(f.as_str())).collect::<Vec<_>>().join(" "))
+                format!("(enum{})", fs.iter().map(|f| format!(",{}", atom(f.as_str()))).collect::<Vec<_>>().concat())
             }
             D::Option(v) => {
                 self.hit("w:def-option");
-                format!("(option {})", self.val(*v))
+                format!("(option,{})", self.val(*v))
             }
             D::Result { ok, err } => {
                 self.hit("w:def-result");
-                format!("(result {} {})", self.oval(*ok), self.oval(*err))
+                format!("(result,{},{})", self.oval(*ok), self.oval(*err))
             }
             D::Own(r) => {
                 self.hit("w:def-own");
-                format!("(own {})", self.res(*r))
+                format!("(own,{})", self.res(*r))
             }
             D::Borrow(r) => {
                 self.hit("w:def-borrow");
-                format!("(borrow {})", self.res(*r))
+                format!("(borrow,{})", self.res(*r))
             }
             D::Stream(v) => {
                 self.hit("w:def-stream");
-                format!("(stream {})", self.oval(*v))
+                format!("(stream,{})", self.oval(*v))
             }
             D::Future(v) => {
                 self.hit("w:def-future");
-                format!("(future {})", self.oval(*v))
+                format!("(future,{})", self.oval(*v))
             }
             D::FixedLengthList(v, n) => {
                 self.hit("w:def-fixed");
-                format!("(fixed {} {})", self.val(*v), n)
+                format!("(flist,{},{})", self.val(*v), n)
             }
             D::Map(k, v) => {
                 self.hit("w:def-map");
-                format!("(map {} {})", self.val(*k), self.val(*v))
+                format!("(map,{},{})", self.val(*k), self.val(*v))
             }
         };
-        self.ddefs[n] = format!("({} {} {})", n, opt(peel), body);
+        self.ddefs[n] = format!("({},{})", opt(peel), body);
         n
     }
 
@@ -380,9 +325,12 @@ impl<'a> Walk<'a> {
         self.fdefs.push(String::new());
         let t = self.t;
         let f = &t[id];
-        let ps: Vec<String> = f.params.iter().map(|(n, v)| format!("({} {})", atom(n.as_str()), self.val(*v))).collect();
+        let ps: Vec<String> = f.params.iter().map(|(n, v)| format!("({},{})", atom(n.as_str()), self.val(*v))).collect();
         let r = self.oval(f.result);
-        self.fdefs[n] = format!("({} {} ({}) {})", n, f.async_ as u8, ps.join(" "), r);
+        if f.async_ {
+            self.hit("w:func-async");
+        }
+        self.fdefs[n] = format!("({},({}),{})", f.async_ as u8, ps.join(","), r);
         n
     }
 
@@ -394,19 +342,19 @@ impl<'a> Walk<'a> {
         self.mmap.insert(id, n);
         let t = self.t;
         let m = &t[id];
-        let is: Vec<String> = m.imports.iter().map(|((a, b), e)| format!("({} {} {})", atom(a), atom(b), w_extern(t, *e))).collect();
-        let es: Vec<String> = m.exports.iter().map(|(a, e)| format!("({} {})", atom(a), w_extern(t, *e))).collect();
-        self.mdefs.push(format!("({} ({}) ({}))", n, is.join(" "), es.join(" ")));
+        let is: Vec<String> = m.imports.iter().map(|((a, b), e)| format!("({},{},{})", atom(a), atom(b), w_extern(t, *e))).collect();
+        let es: Vec<String> = m.exports.iter().map(|(a, e)| format!("({},{})", atom(a), w_extern(t, *e))).collect();
+        self.mdefs.push(format!("(module,({}),({}))", is.join(","), es.join(",")));
         n
     }
 
     fn any(&mut self, id: wt::ComponentAnyTypeId) -> String {
         match id {
-            wt::ComponentAnyTypeId::Resource(r) => format!("(r {})", self.res(r)),
-            wt::ComponentAnyTypeId::Defined(d) => format!("(d {})", self.defined(d)),
-            wt::ComponentAnyTypeId::Func(f) => format!("(f {})", self.func(f)),
-            wt::ComponentAnyTypeId::Instance(i) => format!("(i {})", self.instance(i)),
-            wt::ComponentAnyTypeId::Component(c) => format!("(c {})", self.component(c)),
+            wt::ComponentAnyTypeId::Resource(r) => format!("(r,{})", self.res(r)),
+            wt::ComponentAnyTypeId::Defined(d) => format!("(d,{})", self.defined(d)),
+            wt::ComponentAnyTypeId::Func(f) => format!("(f,{})", self.func(f)),
+            wt::ComponentAnyTypeId::Instance(i) => format!("(i,{})", self.instance(i)),
+            wt::ComponentAnyTypeId::Component(c) => format!("(c,{})", self.component(c)),
         }
     }
 
@@ -415,36 +363,36 @@ impl<'a> Walk<'a> {
         match e {
             E::Module(m) => {
                 self.hit("w:ent-module");
-                format!("(module {})", self.module(m))
+                format!("(module,{})", self.module(m))
             }
             E::Func(f) => {
                 self.hit("w:ent-func");
-                format!("(func {})", self.func(f))
+                format!("(func,{})", self.func(f))
             }
             E::Value(v) => {
                 self.hit("w:ent-value");
-                format!("(value {})", self.val(v))
+                format!("(value,{})", self.val(v))
             }
             E::Type { referenced, created } => {
                 self.hit("w:ent-type");
                 let r = self.any(referenced);
                 let c = self.any(created);
-                format!("(type {} {})", r, c)
+                format!("(type,{},{})", r, c)
             }
             E::Instance(i) => {
                 self.hit("w:ent-instance");
-                format!("(instance {})", self.instance(i))
+                format!("(instance,{})", self.instance(i))
             }
             E::Component(c) => {
                 self.hit("w:ent-component");
-                format!("(component {})", self.component(c))
+                format!("(component,{})", self.component(c))
             }
         }
     }
 
     fn named<'b>(&mut self, m: impl Iterator<Item = (&'b String, &'b wt::ComponentEntityType)>) -> String {
-        let v: Vec<String> = m.map(|(n, e)| format!("({} {})", atom(n), self.entity(*e))).collect();
-        v.join(" ")
+        let v: Vec<String> = m.map(|(n, e)| format!("({},{})", atom(n), self.entity(*e))).collect();
+        v.join(",")
     }
 
     fn instance(&mut self, id: wt::ComponentInstanceTypeId) -> usize {
@@ -456,7 +404,7 @@ impl<'a> Walk<'a> {
         self.idefs.push(String::new());
         let t = self.t;
         let body = self.named(t[id].exports.iter());
-        self.idefs[n] = format!("({} {})", n, body);
+        self.idefs[n] = format!("(({}))", body);
         n
     }
 
@@ -470,21 +418,29 @@ impl<'a> Walk<'a> {
         let t = self.t;
         let is = self.named(t[id].imports.iter());
         let es = self.named(t[id].exports.iter());
-        self.cdefs[n] = format!("({} ({}) ({}))", n, is, es);
+        self.cdefs[n] = format!("(({}),({}))", is, es);
         n
     }
 
-    /// `(w <root component> (defs …) (funcs …) (insts …) (comps …) (mods …) (res …))`
     pub fn finish(self, root: usize) -> String {
+        let sec = |tag: &str, v: &Vec<String>| {
+            let mut s = format!("({tag}");
+            for x in v {
+                s.push(',');
+                s.push_str(x);
+            }
+            s.push(')');
+            s
+        };
         format!(
-            "(w {} (defs {}) (funcs {}) (insts {}) (comps {}) (mods {}) (res {}))",
+            "(W,{},{},{},{},{},{},{})",
             root,
-            self.ddefs.join(" "),
-            self.fdefs.join(" "),
-            self.idefs.join(" "),
-            self.cdefs.join(" "),
-            self.mdefs.join(" "),
-            self.rdefs.join(" ")
+            sec("D", &self.ddefs),
+            sec("F", &self.fdefs),
+            sec("I", &self.idefs),
+            sec("C", &self.cdefs),
+            sec("M", &self.mdefs),
+            sec("R", &self.rdefs)
         )
     }
 }
@@ -518,151 +474,14 @@ pub fn walk_component(bytes: &[u8]) -> Result<(String, HashMap<&'static str, u64
 }
 
 // ---------------------------------------------------------------------------------------------
-// A: wac's view, through the public `Types` API
+// A: wac's view, through the public `Types` API (shared serialiser harness/src/tree.rs)
 
-pub fn a_prim(p: wac_types::PrimitiveType) -> &'static str {
-    p.desc()
-}
-
-fn a_val(v: ValueType) -> String {
-    match v {
-        ValueType::Primitive(p) => a_prim(p).to_string(),
-        ValueType::Borrow(r) => format!("(borrow {r})"),
-        ValueType::Own(r) => format!("(own {r})"),
-        ValueType::Defined(d) => format!("(d {d})"),
-    }
-}
-
-fn a_oval(v: Option<ValueType>) -> String {
-    v.map(a_val).unwrap_or_else(|| "-".into())
-}
-
-fn a_type(t: Type) -> String {
-    match t {
-        Type::Resource(r) => format!("(resource {r})"),
-        Type::Func(f) => format!("(func {f})"),
-        Type::Value(v) => format!("(value {})", a_val(v)),
-        Type::Interface(i) => format!("(interface {i})"),
-        Type::World(w) => format!("(world {w})"),
-        Type::Module(m) => format!("(module {m})"),
-    }
-}
-
-pub fn a_item(k: ItemKind) -> String {
-    match k {
-        ItemKind::Type(t) => format!("(type {})", a_type(t)),
-        ItemKind::Func(f) => format!("(func {f})"),
-        ItemKind::Instance(i) => format!("(instance {i})"),
-        ItemKind::Component(w) => format!("(component {w})"),
-        ItemKind::Module(m) => format!("(module {m})"),
-        ItemKind::Value(v) => format!("(value {})", a_val(v)),
-    }
-}
-
-fn a_items<'a>(m: impl Iterator<Item = (&'a String, &'a ItemKind)>) -> String {
-    m.map(|(n, k)| format!("({} {})", atom(n), a_item(*k))).collect::<Vec<_>>().join(" ")
-}
-
-fn a_uses(m: &indexmap::IndexMap<String, wac_types::UsedType>) -> String {
-    m.iter()
-        .map(|(n, u)| format!("({} {} {})", atom(n), u.interface, opt(u.name.as_ref().map(|s| atom(s)))))
-        .collect::<Vec<_>>()
-        .join(" ")
-}
-
-/// `(a (defined …) (resources …) (funcs …) (interfaces …) (worlds …) (modules …))`, every arena
-/// in index order.
-pub fn dump_types(types: &Types) -> String {
-    let defined: Vec<String> = types
-        .defined_types()
-        .map(|d| match d {
-            DefinedType::Tuple(vs) => format!("(tuple {})", vs.iter().map(|v| a_val(*v)).collect::<Vec<_>>().join(" ")),
-            DefinedType::List(v) => format!("(list {})", a_val(*v)),
-            DefinedType::FixedSizeList(v, n) => format!("(fixed {} {})", a_val(*v), n),
-            DefinedType::Option(v) => format!("(option {})", a_val(*v)),
-            DefinedType::Result { ok, err } => format!("(result {} {})", a_oval(*ok), a_oval(*err)),
-            DefinedType::Variant(v) => format!(
-                "(variant {})",
-                v.cases.iter().map(|(n, v)| format!("({} {})", atom(n), a_oval(*v))).collect::<Vec<_>>().join(" ")
-            ),
-            DefinedType::Record(r) => format!(
-                "(record {})",
-                r.fields.iter().map(|(n, v)| format!("({} {})", atom(n), a_val(*v))).collect::<Vec<_>>().join(" ")
-            ),
-            DefinedType::Flags(f) => format!("(flags {})", f.0.iter().map(|n| atom(n)).collect::<Vec<_>>().join(" ")),
-            DefinedType::Enum(f) => format!("(enum {})", f.0.iter().map(|n| atom(n)).collect::<Vec<_>>().join(" ")),
-            DefinedType::Alias(v) => format!("(alias {})", a_val(*v)),
-            DefinedType::Stream(v) => format!("(stream {})", a_oval(*v)),
-            DefinedType::Future(v) => format!("(future {})", a_oval(*v)),
-        })
-        .collect();
-    let resources: Vec<String> = types
-        .resources()
-        .map(|r| {
-            format!(
-                "({} {})",
-                atom(&r.name),
-                match &r.alias {
-                    None => "-".to_string(),
-                    Some(a) => format!("({} {})", opt(a.owner.map(|o| o.to_string())), a.source),
-                }
-            )
-        })
-        .collect();
-    let funcs: Vec<String> = types
-        .func_types()
-        .map(|f| {
-            format!(
-                "({} ({}) {})",
-                f.is_async as u8,
-                f.params.iter().map(|(n, v)| format!("({} {})", atom(n), a_val(*v))).collect::<Vec<_>>().join(" "),
-                a_oval(f.result)
-            )
-        })
-        .collect();
-    let interfaces: Vec<String> = types
-        .interfaces()
-        .map(|i| format!("({} ({}) ({}))", opt(i.id.as_ref().map(|s| atom(s))), a_uses(&i.uses), a_items(i.exports.iter())))
-        .collect();
-    let worlds: Vec<String> = types
-        .worlds()
-        .map(|w| {
-            format!(
-                "({} ({}) ({}) ({}))",
-                opt(w.id.as_ref().map(|s| atom(s))),
-                a_uses(&w.uses),
-                a_items(w.imports.iter()),
-                a_items(w.exports.iter())
-            )
-        })
-        .collect();
-    let modules: Vec<String> = types
-        .modules()
-        .map(|m| {
-            format!(
-                "(({}) ({}))",
-                m.imports.iter().map(|((a, b), e)| format!("({} {} {})", atom(a), atom(b), a_extern(e))).collect::<Vec<_>>().join(" "),
-                m.exports.iter().map(|(a, e)| format!("({} {})", atom(a), a_extern(e))).collect::<Vec<_>>().join(" ")
-            )
-        })
-        .collect();
-    format!(
-        "(a (defined {}) (resources {}) (funcs {}) (interfaces {}) (worlds {}) (modules {}))",
-        defined.join(" "),
-        resources.join(" "),
-        funcs.join(" "),
-        interfaces.join(" "),
-        worlds.join(" "),
-        modules.join(" ")
-    )
-}
-
-/// Decode with wac into a fresh `Types`; returns `(A dump, world index, instance-type index, definitions)`.
+/// Decode with wac into a fresh `Types`; returns `(A, world index, instance-type index, definitions)`.
 pub fn wac_decode(name: &str, bytes: &[u8]) -> Result<(String, String, String, String), String> {
     let mut types = Types::new();
     let pkg = Package::from_bytes(name, None, bytes.to_vec(), &mut types).map_err(|e| format!("{e:#}"))?;
-    let defs = pkg.definitions().iter().map(|(n, k)| format!("({} {})", atom(n), a_item(*k))).collect::<Vec<_>>().join(" ");
-    Ok((dump_types(&types), pkg.ty().to_string(), pkg.instance_type().to_string(), format!("({defs})")))
+    let defs = pkg.definitions().iter().map(|(n, k)| format!("({},{})", atom(n), crate::tree::ser_kind(*k))).collect::<Vec<_>>().join(",");
+    Ok((crate::tree::ser_types(&types, 0), pkg.ty().to_string(), pkg.instance_type().to_string(), format!("({defs})")))
 }
 
 // ---------------------------------------------------------------------------------------------
@@ -873,6 +692,10 @@ pub fn oracles(name: &str, version: Option<&semver::Version>, bytes: &[u8]) -> O
         let a = wt::ComponentEntityType::Component(tr.component_at(0));
         let b = wt::ComponentEntityType::Component(tr.component_at(1));
         r.reflexive = subtype_guarded(&a, &b, tr);
+    }
+    if r.reflexive != Some(true) {
+        // the reference validator cannot judge this shape (see `reflexive`)
+        return r;
     }
     let enc = match encode_type_import(name, version, bytes) {
         Ok(b) => b,
